@@ -1,10 +1,12 @@
 #!/bin/sh
-# Build the framework from files on disk only (offline): Lean library + driver, Rust harness.
+# Build the framework from files on disk only (offline): Rust harness, generated Lean tables,
+# Lean library + driver.
 set -e
 cd "$(dirname "$0")"
 export CARGO_NET_OFFLINE=true
-mkdir -p .cache evidence replays
+mkdir -p .cache/gen evidence replays
 [ -f harness/Cargo.lock ] || cp /repo/Cargo.lock harness/Cargo.lock
-(cd lean && lake build Cte ctedriver)
 (cd harness && CARGO_TARGET_DIR=../.cache/target-harness cargo build --release --offline --quiet)
+.cache/target-harness/release/cteverif dump --out .cache/gen >/dev/null 2>&1 && python3 tools/gen_tables.py .cache/gen/tables.json
+(cd lean && lake build Cte ctedriver)
 echo setup-ok
